@@ -14,7 +14,7 @@ ASSUMPTIONS = [
     "attribute deletion through a link is not part of the statement and is not generated",
 ]
 GATES = ["mon.C20.shadow", "mon.C20.structure", "C20.link_to_link", "C20.link_other_tree", "C20.ctor_kwargs", "C20.ctor_kwargs_on_link_target", "C20.write_via_link", "C20.write_via_target",
-         "C20.missing_attr_raises", "C20.struct_on_link", "C20.struct_on_target", "C20.veto", "C20.falsy_target", "C20.property_target", "C20.equal_but_distinct_value"]
+         "C20.missing_attr_raises", "C20.struct_on_link", "C20.struct_on_target", "C20.veto", "C20.falsy_target", "C20.property_target", "C20.equal_but_distinct_value", "C20.target_reassigned", "C20.refused_by_target"]
 
 NAMES = ["foo", "bar", "baz", "x1", "value_", "lng", "k9", "_p", "__q", "name", "été", "data", "t", "get", "tar", "a"]
 
@@ -35,6 +35,7 @@ class Hist:
         self.nodes = []
         self.target_of = {}  # label -> label of direct target (links only)
         self.shadow = {}  # final target label -> {name: value}
+        self.readonly = set()  # labels of targets whose class makes 'k9' a read-only property
         self.log = []
         k0 = rng.randint(2, 4)
         for i in range(k0):
@@ -54,8 +55,9 @@ class Hist:
             self.shadow[i] = {"name": "p%d" % i}
             self.ctx.count("C20.falsy_target")
         elif r < 0.8:
-            n = F.PropNode("p%d" % i)  # 'lng' is a property with setter on the target's class
-            self.shadow[i] = {"name": "p%d" % i}
+            n = F.PropNode("p%d" % i)  # 'lng' is a property with setter, 'k9' a read-only property on the target's class
+            self.shadow[i] = {"name": "p%d" % i, "k9": "RO"}
+            self.readonly.add(i)
             self.ctx.count("C20.property_target")
         elif r < 0.9:
             n = F.FalsyAny(name="p%d" % i)  # falsy while it has no children
@@ -74,6 +76,13 @@ class Hist:
             i = self.target_of[i]
         return i
 
+    def chain(self, i):
+        out = [i]
+        while i in self.target_of:
+            i = self.target_of[i]
+            out.append(i)
+        return out
+
     def add_link(self):
         F = self.F
         rng = self.rng
@@ -84,7 +93,10 @@ class Hist:
         cls = F.HSym if (use_kw or rng.random() < 0.5) else F.HSymMixin
         if use_kw and cls is F.HSym:
             for _ in range(rng.randint(1, 2)):
-                kw[rng.choice(NAMES)] = ("ctor", i, rng.randrange(100))
+                nm = rng.choice(NAMES)
+                if nm == "k9" and self.final(t) in self.readonly:
+                    continue  # the target's class refuses that assignment (read-only property)
+                kw[nm] = ("ctor", i, rng.randrange(100))
         parent = None
         if rng.random() < 0.5:
             parent = rng.randrange(i)
@@ -167,6 +179,17 @@ class Hist:
                 self.rec = F.Rec(self.nodes)
                 ok = True
             return ok and self.check_shadow()
+        if r < 0.22 and self.target_of:
+            # re-point a link: from now on it forwards to the new target (also for links that point at this link)
+            i = rng.choice(sorted(self.target_of))
+            cands = [t for t in range(k) if i not in self.chain(t)]  # never a cycle of links
+            if cands:
+                t = rng.choice(cands)
+                self.log.append(["retarget", i, t])
+                ctx.count("C20.target_reassigned")
+                self.nodes[i].target = self.nodes[t]
+                self.target_of[i] = t
+                return self.check_shadow()
         if r < 0.55:
             i = rng.randrange(k)
             name = rng.choice(NAMES)
@@ -180,6 +203,16 @@ class Hist:
                 val = ("w", len(self.log), rng.randrange(1000))
             self.log.append(["write", i, name])
             pre = self.rec.snapshot()
+            if name == "k9" and self.final(i) in self.readonly:
+                # the target refuses the assignment: the refusal must come through, nothing may be stored anywhere
+                ctx.count("C20.refused_by_target")
+                try:
+                    setattr(self.nodes[i], name, val)
+                    ctx.violation("C20/forwarding/refused-assignment-swallowed", "shadow-store", self.case(), expected="AttributeError from the target's read-only property", observed="no exception")
+                    return False
+                except AttributeError:
+                    pass
+                return self.expect_structure(M.ch_of(pre), "attribute-write-moved-nodes") and self.check_shadow()
             setattr(self.nodes[i], name, val)
             self.shadow[self.final(i)][name] = val
             ctx.count("C20.write_via_link" if i in self.target_of else "C20.write_via_target")
